@@ -91,7 +91,7 @@ Qed.
 Lemma step_ChallInv c h e now d : ev_wf e -> ChallInv h -> ChallInv (fst (step c h e now d)).
 Proof.
   intros Hwf Hinv. rewrite step_eq. cbn [fst].
-  pose proof (ChallInv_tick c h now d Hinv) as H0. set (s0 := tick c h now d) in *.
+  pose proof (ChallInv_tick c h now d Hinv) as H0. set (s0 := tick c h now d) in *. clearbody s0.
   destruct e as [ct rid body | na rid rb | na n known | from p |]; cbn [dispatch].
   - pose proof (Quiet_send_request c s0 ct true rid body now) as [[E _] _].
     destruct (send_request c s0 ct true rid body now) as [s1 ok]. cbn [fst] in E.
